@@ -44,9 +44,21 @@ def parse_line(line):
     return parts[0], idx, d
 
 
+class HashedBlob(bytes):
+    """a blob the driver reported only as '#sha256:length' because it exceeds VF_BLOB_MAX: compares unequal to every real
+    byte string of interest, and carries the length so that a check can say what happened"""
+    def __new__(cls, text):
+        o = super().__new__(cls, b"\x00<blob too large: " + text.encode() + b">")
+        o.declared_len = int(text.rsplit(":", 1)[1])
+        o.text = text
+        return o
+
+
 def unhex(s):
     if s is None or s == "-" or s == "":
         return b""
+    if s.startswith("#"):
+        return HashedBlob(s)
     return bytes.fromhex(s)
 
 
